@@ -480,6 +480,8 @@ def run_case_impl(w, n_ops, stream, observers=(), fixed_ops=None):
     w.reporter.take()
     steps, violations, ops = [], [], []
     w.history = [w.sim]
+    w.expected = []
+    w.reports_log = []
     for k in range(n_ops if fixed_ops is None else len(fixed_ops)):
         op = stream.next(w) if fixed_ops is None else fixed_ops[k]
         ops.append(op)
@@ -489,6 +491,8 @@ def run_case_impl(w, n_ops, stream, observers=(), fixed_ops=None):
         w.history.append(w.sim)
         expected = w.TL([w.TZ(status), w.fp_sim(w.sim), w.fp_events(reports)])
         steps.append(f'({optxt}, {expected})')
+        w.expected.append(expected)
+        w.reports_log.append(reports)
         for ob in observers:
             for msg in ob(w, k, op, before, w.sim, reports):
                 violations.append((k, msg))
